@@ -297,3 +297,79 @@ Proof.
     destruct (rt_ser_fields_layout p rt_fields v W 106 rt_fields_ok ltac:(rewrite fsum_fields; lia) ltac:(lia)) as (_ & L).
     rewrite fsum_fields in L. fold NB in L. lia.
 Qed.
+
+(* ---------------------------------------------------------------- the whole header (radiotap namespaces only) *)
+Definition rt_wf_rt (l : radiotap) : Prop :=
+  rt_vendor l = [] /\ 0 <= rt_version l < 256 /\
+  exists p qs, rt_present l = p :: qs /\ chain_ok p qs /\ rtchain_ok (p :: qs) (rt_values l) /\ 4 + 132 * zlen (p :: qs) <= 65535.
+
+Definition rt_hdr (l : radiotap) : list Z :=
+  let body := pw_bytes (rt_present l) ++ chain_bytes (rt_present l) (rt_values l) (4 + 4 * zlen (rt_present l)) in
+  [rt_version l; 0] ++ rt_put16 (4 + zlen body) ++ body.
+
+Lemma zeros_S n : 0 <= n -> zeros (1 + n) = 0 :: zeros n.
+Proof. intros. rewrite zeros_app by lia. reflexivity. Qed.
+
+Theorem rt_serialize_layout l payload csum junk : rt_wf_rt l ->
+  rt_serialize l payload true csum junk = (Ok (rt_hdr l ++ payload), l).
+Proof.
+  intros (Hv & Hver & p & qs & Hps & Hch & Hrc & Hsz). unfold rt_serialize, rt_hdr. rewrite Hv. cbn [existsb].
+  assert (Es : rt_size l = 4 + zlen (rt_present l) * 132) by (unfold rt_size; rewrite Hv; cbn [fold_right]; lia).
+  rewrite Es. rewrite Hps in *. set (ps := p :: qs) in *. pose proof (zlen_nonneg qs) as Pq.
+  assert (Pn : 1 <= zlen ps) by (unfold ps; rewrite zlen_cons; lia).
+  destruct (4 + zlen ps * 132 >? 65535) eqn:E1; [lia|].
+  set (size := if 4 + zlen ps * 132 <? 1024 then 1024 else 4 + zlen ps * 132).
+  assert (Hsize : 4 + zlen ps * 132 <= size <= 65535 /\ 1024 <= size) by (unfold size; destruct (4 + zlen ps * 132 <? 1024) eqn:E; lia).
+  change (repeat 0 (Z.to_nat size)) with (zeros size).
+  rewrite Z.mod_small by lia.
+  assert (B1 : ml_wrc (zeros size) 0 [rt_version l; 0] = Ok ([rt_version l; 0; 0; 0] ++ zeros (size - 4))).
+  { pose proof (wr_zero_tail [] size 0 [rt_version l; 0] ltac:(lia) ltac:(change (zlen [rt_version l; 0]) with 2; lia)) as WR.
+    cbn [app] in WR. change (zlen [] + 0) with 0 in WR. rewrite WR. change (zlen [rt_version l; 0]) with 2. change (zeros 0) with (@nil Z). cbn [app].
+    replace (size - 0 - 2) with (1 + (1 + (size - 4))) by lia. rewrite !zeros_S by lia. reflexivity. }
+  rewrite B1. cbn [obind].
+  set (W4 := [rt_version l; 0; 0; 0]).
+  pose proof (rt_ser_present_layout ps W4 (size - 4) ltac:(lia) ltac:(change (zlen W4) with 4; lia)) as B2.
+  change (zlen W4) with 4 in B2. rewrite B2. cbn [obind fst snd].
+  set (W := W4 ++ pw_bytes ps) in *.
+  assert (LW : zlen W = 4 + 4 * zlen ps) by (unfold W; rewrite zlen_app, zlen_pw_bytes; reflexivity).
+  destruct (rt_ser_loop_layout ps (rt_values l) false W (size - 4 - 4 * zlen ps) Hrc ltac:(lia) ltac:(lia)) as (B3 & L3).
+  rewrite <- LW. rewrite B3. set (CB := chain_bytes ps (rt_values l) (zlen W)) in *. pose proof (zlen_nonneg CB) as PC.
+  set (off := zlen W + zlen CB).
+  set (buf := (W ++ CB) ++ zeros (size - 4 - 4 * zlen ps - zlen CB)).
+  assert (Lb : zlen buf = size) by (unfold buf; rewrite !zlen_app, zlen_zeros by lia; lia).
+  rewrite ml_wrc_ok by (change (zlen (rt_put16 off)) with 2; lia). rewrite cd_wr_length, Lb.
+  assert (Z.to_nat (Z.min off size) = Z.to_nat off) as -> by lia.
+  rewrite (skipn_all2 (cd_region off junk)) by (pose proof (cd_region_length off junk ltac:(unfold off; lia)) as LR; unfold zlen in LR; lia).
+  rewrite app_nil_r.
+  assert (EB : cd_wr buf 2 (rt_put16 off) = ([rt_version l; 0] ++ rt_put16 off ++ pw_bytes ps ++ CB) ++ zeros (size - 4 - 4 * zlen ps - zlen CB)).
+  { unfold buf, W, W4, rt_put16. rewrite <- !app_assoc. reflexivity. }
+  rewrite EB. rewrite firstn_app_exact.
+  - unfold off, CB. rewrite LW. rewrite zlen_app, zlen_pw_bytes.
+    set (C := chain_bytes ps (rt_values l) (4 + 4 * zlen ps)).
+    replace (4 + (4 * zlen ps + zlen C)) with (4 + 4 * zlen ps + zlen C) by lia. reflexivity.
+  - rewrite !app_length. change (length [rt_version l; 0]) with 2%nat. change (length (rt_put16 off)) with 2%nat.
+    unfold off. pose proof (zlen_pw_bytes ps) as LP. unfold zlen in *. lia.
+Qed.
+
+Lemma rt_payload_of_ok f p : exists q, rt_payload_of f p = Ok q.
+Proof.
+  unfold rt_payload_of, rt_depad.
+  destruct (Z.testbit f 5 && (zlen p >=? 2) && (Z.land (nth 0 p 0) 12 =? 8)).
+  - set (h := 24 + _ + _).
+    assert (24 <= h <= 28) by (unfold h; destruct (Z.land (nth 0 p 0) 140 =? 136), (Z.land (nth 1 p 0) 3 =? 3); lia).
+    destruct ((h mod 4 =? 2) && (zlen p >=? h + 2)) eqn:E.
+    + rewrite !cd_slc_ok by lia. cbn [obind]. destruct (Z.testbit f 4); eexists; reflexivity.
+    + cbn [obind]. destruct (Z.testbit f 4); eexists; reflexivity.
+  - cbn [obind]. destruct (Z.testbit f 4); eexists; reflexivity.
+Qed.
+
+Lemma slc_head (pre post : list Z) b : b = zlen pre -> cd_slc (pre ++ post) 0 b = Ok pre.
+Proof.
+  intros ->. pose proof (zlen_nonneg pre). pose proof (zlen_nonneg post). rewrite cd_slc_ok by zl. f_equal.
+  apply slice_from_start. unfold zlen. lia.
+Qed.
+Lemma slc_tail (pre post : list Z) a b : a = zlen pre -> b = zlen pre + zlen post -> cd_slc (pre ++ post) a b = Ok post.
+Proof.
+  intros -> ->. pose proof (zlen_nonneg pre). pose proof (zlen_nonneg post). rewrite cd_slc_ok by zl. f_equal.
+  apply slice_to_end; unfold zlen; lia.
+Qed.
